@@ -124,7 +124,7 @@ def run(tier, seed):
     res.assumptions += [
         "map values are integers or multiples of 1/32 (exact in float32); |values| <= 64, far below kornia's dilation border value 1e4",
         "integral offsets are compared with the exact rational Offset up to the slack stated in Peaks.tla (TolQ: >= 3/4096 px, growing with the patch's condition number); ill-conditioned patches (condition > 4096) are exempt from conformance, not from the bound",
-        "patch sizes are odd (3, 5, 7); even sizes and size 1 are not exercised",
+        "patch sizes 3, 5 on the exhaustive space, 3..7 (even sizes included, judged by the bound only) on random maps; size 1 is not exercised",
     ]
     return res
 
